@@ -49,7 +49,12 @@ func (d *digester) walk(v reflect.Value, depth int) {
 		// package-level singletons constant.True, types.I32 ...) or hold equal copies is not part of
 		// the module's structure. They are expanded at every use; recursion always passes through a
 		// global, a local or a named type, which keep their identity.
-		if pp := v.Type().Elem().PkgPath(); strings.HasSuffix(pp, "/ir/constant") && depth < 200 {
+		if pp := v.Type().Elem().PkgPath(); pp == "math/big" {
+			if sv, ok := v.Interface().(fmt.Stringer); ok {
+				d.put("%s(%s);", v.Type().Elem().String(), sv.String())
+				return
+			}
+		} else if strings.HasSuffix(pp, "/ir/constant") && depth < 200 {
 			d.put("&%s{", v.Type().Elem().String())
 			d.walk(v.Elem(), depth+1)
 			d.put("}")
